@@ -1,7 +1,7 @@
 // C10 — optimisers never end worse than they start, converge when convex, respect bounds
 // VF-VARIANT: san
 // VF-RULE: E2: every index of each stated configuration product is one complete optimiser run (init + optimize; every 8th index executed twice on fresh objects and compared bit for bit) on a fresh optimiser and a fresh harness objective that records every point it is evaluated at; spaces "run:<optimiser>:n<dim>:<slice>" are products objective x start x constraint set x policy x tolerance x budget x interval/direction variant, "bracket:*" are products objective x initial pair. A case is non-trivial when the run returned normally and moved away from its start.
-// VF-BOUND: 14 optimiser configurations (BFGS, conjugate gradient, Powell, downhill simplex, SimpleMulti, SimpleNewtonMulti, 3 meta-optimiser compositions, Brent outward/inward, golden section, Newton 1-D, Newton backtracking); dimensions 1..3 (quick) / 1..6 (thorough); quadratics c + (x-m)'Q(x-m)/2 with Q from a finite set of integer SPD matrices (diag with kappa in {1,10,100,1000}, [[2,+-1],[+-1,2]]*{1,100}, tridiagonal(2,-1), L L' with L unit lower 0/1), m on {-1,0,1.5}^n (complete for n<=1 quick / n<=3 thorough, 5 patterns above), c in {0,1}; non-quadratics sum-cosh, quartic+quadratic, log-sum-exp; starts on {-2,0.5,3}^n (complete for n<=2, 5 patterns above; n=1 also -0.1, whose first simplex/interval straddles the minimiser 0 symmetrically); constraints {none, box [-4,4]^n, box with the minimiser on a face}; policies keep/auto/ignore; tolerances {1e-4,1e-6,1e-8,1e-10}; budgets {10,50,5000}; three slices per optimiser and dimension (all objectives x all tolerances unconstrained; reduced objectives x constraint sets x policies; reduced objectives x small budgets) instead of the full product; "random" quadratics/starts replaced by these lattices
+// VF-BOUND: 14 optimiser configurations (BFGS, conjugate gradient, Powell, downhill simplex, SimpleMulti, SimpleNewtonMulti, 3 meta-optimiser compositions, Brent outward/inward, golden section, Newton 1-D, Newton backtracking); dimensions 1..3 (quick) / 1..6 (thorough); quadratics c + (x-m)'Q(x-m)/2 with Q from a finite set of integer SPD matrices (diag with kappa in {1,10,100,1000}, [[2,+-1],[+-1,2]]*{1,100}, tridiagonal(2,-1), L L' with L unit lower 0/1), m on {-1,0,1.5}^n (complete for n<=1 quick / n<=3 thorough, 5 patterns above), c in {0,1}; non-quadratics sum-cosh, quartic+quadratic, log-sum-exp, sum-log-cosh(2d) (vanishing curvature away from the minimiser: raw Newton steps from the outer starts overshoot by orders of magnitude, so the step-halving safeguards and their give-up path are exercised); starts on {-2,0.5,3}^n (complete for n<=2, 5 patterns above; n=1 also -0.1, whose first simplex/interval straddles the minimiser 0 symmetrically); constraints {none, box [-4,4]^n, box with the minimiser on a face, box whose lower / upper / alternating bounds pass exactly through the start (judged on descent, value consistency, budget and feasibility; not on convergence)}; policies keep/auto/ignore; tolerances {1e-4,1e-6,1e-8,1e-10}; budgets {10,50,5000}; three slices per optimiser and dimension (all objectives x all tolerances unconstrained; reduced objectives x constraint sets x policies; reduced objectives x small budgets) instead of the full product; "random" quadratics/starts replaced by these lattices
 // VF-LEVEL: exhaustive over the stated finite configuration spaces on the real optimiser classes: descent, returned-value consistency and feasibility of every recorded evaluation judged exactly (no tolerance beyond 4 ulp on descent), budget judged on the optimiser's own evaluation counter at every step, convergence judged against a worst-case bound derived from the stop rule actually used (derivations next to the code; vacuous bounds are counted separately), bracketing judged on re-evaluated values
 // VF-ASSUME: the harness objective (value, gradient, Hessian of the stated families) and its rounding bound gamma=(n^2+4)u are correct;; bpp::Parameter/ParameterList/IntervalConstraint/AbstractParametrizable behave as documented (C01/C02's subject);; convergence bounds: one iteration of each optimiser is modelled as documented at convBound() (for conjugate gradient with n>=2 the iteration is assumed at least as good as one steepest-descent line minimisation; for the downhill simplex no bound follows from its spread criterion and the loosest factor of the family is used);; IEEE double arithmetic without contraction
 // VF-TECHNIQUE: bounded-exhaustive configuration enumeration on the real optimisers with a recording objective and analytic reference (minimiser, spectrum) of integer quadratics
@@ -35,7 +35,7 @@ static const char* ON[NOPT] = {"Bfgs", "ConjugateGradient", "Powell", "DownhillS
                                "Meta[SimpleNewton|Simple]", "Meta[Bfgs|Powell]", "Meta[ConjugateGradient|DownhillSimplex]",
                                "Brent", "BrentInward", "GoldenSection", "NewtonOneDimension", "NewtonBacktrack"};
 static bool oneDim(int o) { return o >= BRENT; }
-static const char* CONS[3] = {"none", "box", "face"};
+static const char* CONS[6] = {"none", "box", "face", "start-on-lower-bounds", "start-on-upper-bounds", "start-on-alternating-bounds"};
 static const char* POL[3] = {"keep", "auto", "ignore"};
 static const double TOLS[4] = {1e-4, 1e-6, 1e-8, 1e-10};
 static const int BIG = 5000;   // the "large" budget (the library default of the simplex; others default to 1e4..1e6, which a NaN stop test would burn completely)
@@ -98,11 +98,11 @@ static std::vector<Spec> objectives(int n, int level, int cap) {   // cap: the m
       }
     }
   }
-  for (int kind : {COSH, QUART, LSE}) for (size_t mi = 0; mi < ms.size(); ++mi) {
+  for (int kind : {COSH, QUART, LSE, LOGCOSH}) for (size_t mi = 0; mi < ms.size(); ++mi) {
     if (level == 1 && mi != 1 % ms.size()) continue;
     Spec s; s.kind = kind; s.n = n; s.m = ms[mi]; s.c = 1;
     if (kind == QUART) s.Q = sh[n >= 2 ? 4 + (n == 2 ? 4 : 0) : 0].Q;   // tridiagonal (n>=2) / [1] (n=1)
-    s.label = std::string(kind == COSH ? "sum-cosh" : kind == QUART ? "quartic+tridiag-quadratic" : "log-sum-exp") + " m=" + vf::vstr(ms[mi]);
+    s.label = std::string(kind == COSH ? "sum-cosh" : kind == QUART ? "quartic+tridiag-quadratic" : kind == LSE ? "log-sum-exp" : "sum-log-cosh(2d)") + " m=" + vf::vstr(ms[mi]);
     finishSpec(s); out.push_back(s);
   }
   return out;
@@ -411,7 +411,7 @@ static void judge(const Cfg& cf, vf::Case& c, bool sampleIt, bool twice) {
   if (cf.cons && cf.pol == 1 && cf.opt != NBOD)
     for (int i = 0; i < n; ++i) if (!(r.xrep[(size_t)i] >= cf.lo[(size_t)i] && r.xrep[(size_t)i] <= cf.hi[(size_t)i])) { c.fail("feas|reported-point-infeasible|" + on, in + ": reported " + vf::vstr(r.xrep)); break; }
   // (5) convergence on strictly convex quadratics without active constraints, runs stopped by their stop rule with the large budget
-  if (s.kind == QUAD && r.tolReached && cf.bud == BIG && cf.cons != 2) {
+  if (s.kind == QUAD && r.tolReached && cf.bud == BIG && cf.cons <= 1) {
     bool touched = false;
     if (cf.cons == 1 && cf.pol != 2) {   // a constraint is inactive for this clause when no evaluated coordinate came within 1e-5 of a bound (then no value was ever corrected, rejected or shortened)
       size_t cnt = r.obj->pts.size() / (size_t)np;
@@ -451,6 +451,11 @@ static void setBox(Cfg& cf) {
   if (cf.cons == 2) {   // minimiser on a face of coordinate 0, on the side away from the start
     if (cf.start[0] > cf.spec.m[0]) cf.lo[0] = cf.spec.m[0]; else cf.hi[0] = cf.spec.m[0];
   }
+  // the start lies exactly on a bound of every coordinate (the other bound stays at the box); depending on the side of the minimiser the
+  // first move of a coordinate is inwards or is held back by the bound
+  if (cf.cons == 3) for (int i = 0; i < n; ++i) cf.lo[(size_t)i] = cf.start[(size_t)i];
+  if (cf.cons == 4) for (int i = 0; i < n; ++i) cf.hi[(size_t)i] = cf.start[(size_t)i];
+  if (cf.cons == 5) for (int i = 0; i < n; ++i) { if (i % 2 == 0) cf.lo[(size_t)i] = cf.start[(size_t)i]; else cf.hi[(size_t)i] = cf.start[(size_t)i]; }
 }
 
 static void addSlice(vf::Runner& R, const Slice& sl) {
@@ -536,8 +541,8 @@ int main(int argc, char** argv) {
         addSlice(R, s);
       }
       if (opt != NBOD) {  // slice 2: constraint sets x policies
-        Slice s; s.opt = opt; s.n = n; s.objs = objectives(n, 1, cap); s.starts = starts; s.cons = {0, 1, 2}; s.pols = {0, 1, 2}; s.tols = th ? std::vector<int>{1, 3} : std::vector<int>{1}; s.buds = {BIG}; s.vars = vars;
-        s.name = base + "objectives" + str(s.objs.size()) + "xstarts" + str(starts.size()) + "xcons3xpolicy3xtol" + str(s.tols.size()) + "xvariants" + str(vars.size()) + ":budget" + str(BIG);
+        Slice s; s.opt = opt; s.n = n; s.objs = objectives(n, 1, cap); s.starts = starts; s.cons = {0, 1, 2, 3, 4, 5}; s.pols = {0, 1, 2}; s.tols = th ? std::vector<int>{1, 3} : std::vector<int>{1}; s.buds = {BIG}; s.vars = vars;
+        s.name = base + "objectives" + str(s.objs.size()) + "xstarts" + str(starts.size()) + "xcons6xpolicy3xtol" + str(s.tols.size()) + "xvariants" + str(vars.size()) + ":budget" + str(BIG);
         addSlice(R, s);
       }
       {  // slice 3: small budgets
